@@ -527,12 +527,12 @@ func (sc *c13Sched) script(r *VRand, steps ...string) {
 			name := strings.TrimSuffix(f[0], "*")
 			idx, _ := strconv.Atoi(name[1:])
 			var th *c13Thread
-			if name[0] == 'p' {
+			if name[0] == 'p' && idx < len(sc.prods) {
 				th = sc.prods[idx]
-			} else {
+			} else if name[0] == 'c' && idx < len(sc.convs) {
 				th = sc.convs[idx]
 			}
-			if th.park == nil {
+			if th == nil || th.park == nil {
 				continue
 			}
 			if star {
@@ -554,6 +554,16 @@ var c13ScriptF1 = []string{"spawn 0", "p0*", "c0*", "tick", "c0", "spawn 0", "p1
 func c13ScriptF2() []string {
 	return []string{"spawn 0", "p0*", "c0", "c0", "c0", fmt.Sprintf("burst 0 %d", UdpTaskQueueLength+1), "c0*"}
 }
+
+// a producer removes the claimed queue from the table before its convoy does (the convoy's
+// CompareAndDelete fails, it re-loads the table and recycles), then creates the successor queue
+var c13ScriptDelRace = []string{"spawn 0", "p0*", "c0*", "tick", "c0", "c0", "spawn 0",
+	"p1", "p1", "p1", "p1", "p1", "p1", "c0*", "p1*", "c1*"}
+
+// two producers race to create the queue of one flow: the loser puts its channel back and
+// acquires the winner's queue through the slow loop; a third one takes the recycled channel later
+var c13ScriptCreateRace = []string{"spawn 0", "spawn 0", "p0", "p1", "p0", "p1", "p1", "p0", "p1", "p0*", "p1*",
+	"c0*", "spawn 1", "p2*", "c1*"}
 
 // ---- random schedules ----
 
@@ -662,7 +672,9 @@ func c13RunTq(t *testing.T, stats *VStats) {
 	// scripted: the two revert tests first
 	c13TqSchedule(t, s, stats, 1, func(sc *c13Sched) { sc.script(r.Fork(), c13ScriptF1...) })
 	c13TqSchedule(t, s, stats, 1, func(sc *c13Sched) { sc.script(r.Fork(), c13ScriptF2()...) })
-	stats.Add("tq.schedules.scripted", 2)
+	c13TqSchedule(t, s, stats, 1, func(sc *c13Sched) { sc.script(r.Fork(), c13ScriptDelRace...) })
+	c13TqSchedule(t, s, stats, 2, func(sc *c13Sched) { sc.script(r.Fork(), c13ScriptCreateRace...) })
+	stats.Add("tq.schedules.scripted", 4)
 
 	n := 400
 	if VThorough() {
